@@ -75,7 +75,7 @@ def discover():
             d.setdefault("tier", "quick")
             d.setdefault("t", "300")
             d.setdefault("flags", "")
-            d.setdefault("mem", "8")
+            d.setdefault("mem", "6")
             hs[d["name"]] = d
     return hs
 
@@ -452,7 +452,7 @@ def main():
     ap.add_argument("prop", nargs="?")
     ap.add_argument("--tier", default=os.environ.get("VERIF_TIER", "quick"))
     ap.add_argument("--only", default=None)
-    ap.add_argument("--jobs", type=int, default=int(os.environ.get("VERIF_JOBS", "14")))
+    ap.add_argument("--jobs", type=int, default=int(os.environ.get("VERIF_JOBS", "12")))
     ap.add_argument("--keep", action="store_true")
     ap.add_argument("--replay", default=None)
     ap.add_argument("--list", action="store_true")
@@ -487,13 +487,26 @@ def main():
     for d in tdirs:
         free.put(d)
 
+    import threading
+    budget = float(os.environ.get("VERIF_MEM_GB", "52"))
+    cv = threading.Condition()
+    used = [0.0]
+
     def job(h):
+        need = min(float(h["mem"]), budget)
+        with cv:
+            while used[0] + need > budget:
+                cv.wait()
+            used[0] += need
         d = free.get()
         try:
             return run_harness(h, prop, d, a.scale)
         finally:
             clean_harness_artifacts(d)
             free.put(d)
+            with cv:
+                used[0] -= need
+                cv.notify_all()
 
     order = sorted(hs.values(), key=lambda h: -float(h["t"]))
     results = []
